@@ -26,6 +26,8 @@ Directives (one per line, leading whitespace ignored):
       //@loop K [bind=ID]     ... before the `{` of the K-th loop (invariant/decreases); bind= names a for-iterator
       //@loopbody K           ... at the start of the K-th loop's body
       //@loopend K            ... at the end of the K-th loop's body
+      //@lettype NAME TYPE    the deferred-initialisation `let NAME;` gets the type ascription `let NAME: TYPE;` (Verus needs the
+                              type where a loop contract mentions the variable; a wrong TYPE is a compile error = undecided)
       //@before "TEXT" [#k]   ... before the k-th statement-start occurrence of TEXT
       //@after "TEXT" [#k]    ... after the `;` that ends the statement containing the k-th occurrence of TEXT
       //@desugar_for K        rewrite R5 on the K-th loop
@@ -355,6 +357,8 @@ def weave_fn(src, container, name, nth, opts, subs, mode, sig_only=False):
     s, o, c = src.find_fn(container, name, nth)
     raw = src.text[s:c + 1]
     line0 = src.line_of(s)
+    # anchor-lock keys carry the source file: the same `impl .. for Iter<'a>::next` exists in several files
+    akey = '%s:%s::%s' % (os.path.relpath(src.path, getattr(src, 'root', os.path.dirname(src.path))), container, name)
     rewrites = {}
     text, k = rw_get_unchecked(raw)
     if k:
@@ -480,7 +484,7 @@ def weave_fn(src, container, name, nth, opts, subs, mode, sig_only=False):
             parts = arg.split()
             kk = int(parts[0])
             loops = b.loops()
-            check_anchor('%s::%s|loops' % (container, name), len(loops))
+            check_anchor('%s|loops' % akey, len(loops))
             if kk > len(loops):
                 raise Undecided('anchor lost: loop %d of %s::%s' % (kk, container, name))
             kwpos, kw, lo, lc = loops[kk - 1]
@@ -506,7 +510,7 @@ def weave_fn(src, container, name, nth, opts, subs, mode, sig_only=False):
             heads = [m for m in re.finditer(r'\|[A-Za-z0-9_,: ]*\|', b.text) if m.start() > bo and b.mask[m.start()]]
             if kk > len(heads):
                 raise Undecided('anchor lost: closure %d of %s::%s' % (kk, container, name))
-            check_anchor('%s::%s|closures' % (container, name), len(heads))
+            check_anchor('%s|closures' % akey, len(heads))
             h = heads[kk - 1]
             d = 0
             j = h.end()
@@ -531,7 +535,7 @@ def weave_fn(src, container, name, nth, opts, subs, mode, sig_only=False):
                 raise Undecided('bad anchor syntax: %s' % arg)
             needle = m.group(1).replace('\\"', '"')
             kth = int(m.group(2) or 1)
-            check_anchor('%s::%s|%s' % (container, name, needle), count_code(b, needle, bo))
+            check_anchor('%s|%s' % (akey, needle), count_code(b, needle, bo))
             pos = bo
             for _ in range(kth):
                 pos = b.code_find(needle, pos + 1)
@@ -561,13 +565,21 @@ def weave_fn(src, container, name, nth, opts, subs, mode, sig_only=False):
                     continue
                 break
             b.add(j + 1, '\n' + body_text + '\n')
+        elif kind == 'lettype':
+            nm, ty = arg.split(None, 1)
+            needle = 'let %s;' % nm
+            check_anchor('%s|%s' % (akey, needle), count_code(b, needle, bo))
+            pos = b.code_find(needle, bo + 1)
+            if pos < 0:
+                raise Undecided('anchor lost: %r in %s::%s' % (needle, container, name))
+            b.add(pos + len('let %s' % nm), ': ' + ty.strip())
         elif kind in ('before', 'after'):
             m = re.match(r'\s*"((?:[^"\\]|\\.)*)"\s*(?:#(\d+))?\s*$', arg)
             if not m:
                 raise Undecided('bad anchor syntax: %s' % arg)
             needle = m.group(1).replace('\\"', '"')
             kth = int(m.group(2) or 1)
-            check_anchor('%s::%s|%s' % (container, name, needle), count_code(b, needle, bo))
+            check_anchor('%s|%s' % (akey, needle), count_code(b, needle, bo))
             pos = bo
             for _ in range(kth):
                 pos = b.code_find(needle, pos + 1)
